@@ -936,9 +936,20 @@ val run_cli_lines :
 
 val run_cli : opts -> z -> bytes -> bytes list list res
 
-val run_tcp_table : opts -> z -> table -> bytes list -> table res
+type conn_event =
+| Refused
+| Delivered of bytes * bool
+
+val pause_after : conn_event -> n
+
+val run_tcp_loop :
+  opts -> z -> table -> conn_event list -> (table * n list) res
 
 val run_c : opts -> bytes -> bytes * bytes
+
+val num_of : bytes -> n -> n
+
+val tcp_event : bytes -> conn_event
 
 val run_t : opts -> bytes -> bytes * bytes
 
